@@ -34,6 +34,15 @@ func float64Model[T fixed.Dx](op, arg string) string {
 		return strconv.FormatUint(math.Float64bits(f64.As[T, float64](f64.Int[T](sInt(arg, 64)))), 16)
 	case "asf32":
 		return strconv.FormatUint(uint64(math.Float32bits(f64.As[T, float32](f64.Int[T](sInt(arg, 64))))), 16)
+	// the same through named float types (kind, not type identity, selects the float path)
+	case "fromf64n":
+		return strconv.FormatInt(int64(f64.From[T](myFloat64(parseF64(arg)))), 10)
+	case "fromf32n":
+		return strconv.FormatInt(int64(f64.From[T](myFloat32(parseF32(arg)))), 10)
+	case "asf64n":
+		return strconv.FormatUint(math.Float64bits(float64(f64.As[T, myFloat64](f64.Int[T](sInt(arg, 64))))), 16)
+	case "asf32n":
+		return strconv.FormatUint(uint64(math.Float32bits(float32(f64.As[T, myFloat32](f64.Int[T](sInt(arg, 64)))))), 16)
 	}
 	return "bad-op"
 }
@@ -48,6 +57,14 @@ func float128Model[T fixed.Dx](op, arg string) string {
 		return strconv.FormatUint(math.Float64bits(f128.As[T, float64](f128.VerifC03FromRaw[T](toI128(arg)))), 16)
 	case "asf32":
 		return strconv.FormatUint(uint64(math.Float32bits(f128.As[T, float32](f128.VerifC03FromRaw[T](toI128(arg))))), 16)
+	case "fromf64n":
+		return i128Big(f128.VerifC03Raw(f128.From[T](myFloat64(parseF64(arg))))).String()
+	case "fromf32n":
+		return i128Big(f128.VerifC03Raw(f128.From[T](myFloat32(parseF32(arg))))).String()
+	case "asf64n":
+		return strconv.FormatUint(math.Float64bits(float64(f128.As[T, myFloat64](f128.VerifC03FromRaw[T](toI128(arg))))), 16)
+	case "asf32n":
+		return strconv.FormatUint(uint64(math.Float32bits(float32(f128.As[T, myFloat32](f128.VerifC03FromRaw[T](toI128(arg)))))), 16)
 	}
 	return "bad-op"
 }
@@ -65,9 +82,9 @@ func (floatModelArea) Run(line string) string {
 	}
 	switch f[0] {
 	case "f64":
-		return c.fm64(f[2], f[3])
+		return guarded(func() string { return c.fm64(f[2], f[3]) })
 	case "f128":
-		return c.fm128(f[2], f[3])
+		return guarded(func() string { return c.fm128(f[2], f[3]) })
 	}
 	return "bad-op"
 }
@@ -199,8 +216,17 @@ func genFloatM(r *hx.Rng, bits int, places int, mult int64) float64 {
 	return x
 }
 
-func (floatModelArea) Gen(r *hx.Rng, n int, _ string, emit func(string)) {
+func (floatModelArea) Gen(r *hx.Rng, n int, _ string, emit0 func(string)) {
 	for i := 0; i < n; i++ {
+		named := r.Chance(1, 8)
+		emit := func(l string) {
+			if named { // <ty> <k> <op>n <arg>: the same operation through a named float type
+				f := strings.Fields(l)
+				f[2] += "n"
+				l = strings.Join(f, " ")
+			}
+			emit0(l)
+		}
 		d := r.Range(1, 16)
 		name := strconv.Itoa(d)
 		c := cfgs[name]
@@ -230,9 +256,9 @@ func (floatModelArea) Gen(r *hx.Rng, n int, _ string, emit func(string)) {
 			}
 			emit(ty + " " + name + " fromf32 " + strconv.FormatUint(uint64(math.Float32bits(x)), 16))
 		case 4, 5, 6:
-			emit(ty + " " + name + " asf64 " + genRaw(r, bits, bi(c.mult)).String())
+			emit(ty + " " + name + " asf64 " + genRawFloat(r, bits, c.mult, false).String())
 		default:
-			emit(ty + " " + name + " asf32 " + genRaw(r, bits, bi(c.mult)).String())
+			emit(ty + " " + name + " asf32 " + genRawFloat(r, bits, c.mult, true).String())
 		}
 	}
 }
